@@ -35,7 +35,8 @@ TStep ==
           [] t.op = "Dispatch"   -> DispatchTo(t.a)
           [] t.op = "Gone"       -> GoneAt(t.a)
           [] t.op = "Result"     -> ResultJ(t.a, t.i, t.j, t.e)
-          [] t.op = "Wake"       -> Wake(t.b, t.g)
+          [] t.op = "Wake"       -> WakeAny(t.b, t.g)
+          [] t.op = "IdleElapsed" -> IdleElapsedAny(t.b, t.g)
           [] t.op = "Cancel"     -> CancelAny(t.b)
           [] t.op = "Stop"       -> StopAny
           [] t.op = "HardFire"   -> HardFire(t.b)
